@@ -435,6 +435,8 @@ decided by exhaustive evaluation of the guard over environment x {no, some tagge
     auto_tags(m, ctx, &ev);
     header_flow(m, ctx, "C03.header");
     reset_rule(m, ctx, "C03.env", "tagging_environment");
+    // tags survive the rebuild of a type that mentions a class field (shared with C02.rebuild)
+    crate::rules::c02::rebuild(m, ctx, "C03.rebuild");
 }
 
 pub struct Site {
